@@ -60,6 +60,13 @@ class Rational(primitives.Expression):
         return self.Numerator == other.Numerator and \
                self.Denominator == other.Denominator
 
+    def __hash__(self):
+        # Defining __eq__ resets the inherited __hash__. Must agree
+        # with __eq__, which considers Rational(n, 1) equal to n.
+        if not (self.Denominator - 1):
+            return hash(self.Numerator)
+        return hash((type(self).__name__, self.Numerator, self.Denominator))
+
     def __add__(self, other):
         if not isinstance(other, Rational):
             newother = Rational(other)
